@@ -314,14 +314,14 @@ theorem delivery_authentic_partial (n : Node) (src : Nat) (c : Cell B) (ch : Cho
             | other mid => simp [handle] at ho
 
 /-- what `on_data` delivers for id `cid` is labelled `cid`: a datagram leaves through exit socket `cid` only if that
-    socket exists (and was enabled by, or is being enabled from, its hop's address); data reaches the application
+    socket exists and has its IPv4 transport open (otherwise the packet is parked, see the queue theorems below); data reaches the application
     labelled with circuit `cid` only if this node owns circuit `cid` and the cell came from its first hop -/
 theorem on_data_labels (n : Node) (src cid dest org tag : Nat) (o : Out B)
     (ho : o ∈ (onData (B := B) n src cid dest org tag).2) :
-    (o = Out.exitOut cid dest tag ∧ ∃ e, get n.exits cid = some e ∧ (e.enabled = true ∨ src = e.hop.addr)) ∨
+    (o = Out.exitOut cid dest tag ∧ ∃ e, get n.exits cid = some e ∧ 2 ≤ e.phase) ∨
     (o = Out.rawIn cid org tag ∧ ∃ circ fh, get n.circuits cid = some circ ∧ circ.firstHop = some fh ∧ src = fh.addr) := by
   have hexit : o ∈ (if dest = 0 then (n, ([] : List (Out B))) else exitData n src cid dest tag).2 →
-      (o = Out.exitOut cid dest tag ∧ ∃ e, get n.exits cid = some e ∧ (e.enabled = true ∨ src = e.hop.addr)) := by
+      (o = Out.exitOut cid dest tag ∧ ∃ e, get n.exits cid = some e ∧ 2 ≤ e.phase) := by
     intro h
     by_cases hd : dest = 0
     · simp [hd] at h
@@ -331,17 +331,20 @@ theorem on_data_labels (n : Node) (src cid dest org tag : Nat) (o : Out B)
       | none => simp [he] at h
       | some e =>
         simp only [he] at h
-        by_cases hen : e.enabled = true
-        · rw [if_pos hen] at h
-          simp at h
-          exact ⟨h, e, rfl, Or.inl hen⟩
-        · rw [if_neg hen] at h
+        by_cases h0 : e.phase = 0
+        · rw [if_pos h0] at h
           by_cases hs : src = e.hop.addr
           · rw [if_pos hs] at h
             simp at h
-            exact ⟨h, e, rfl, Or.inr hs⟩
           · rw [if_neg hs] at h
             simp at h
+        · rw [if_neg h0] at h
+          by_cases h1 : e.phase = 1
+          · rw [if_pos h1] at h
+            simp at h
+          · rw [if_neg h1] at h
+            simp at h
+            exact ⟨h, e, rfl, by omega⟩
   unfold onData at ho
   cases hc : get n.circuits cid with
   | none =>
@@ -396,11 +399,13 @@ theorem relay_backward_step (n : Node) (src : Nat) (ch : Choice) (cid : Nat) (re
 /-- the exit: a DATA cell under the exit entry's key leaves through exactly that entry -/
 theorem exit_step (L : AeadLaws A) (n : Node) (ch : Choice) (cid : Nat) (re : Bool) (e : ExitE) (dest org tag : Nat)
     (hr : get n.relays cid = none) (he : get n.exits cid = some e) (hc : get n.circuits cid = none)
-    (hdest : dest ≠ 0) (hen : e.enabled = true) (src : Nat) :
+    (hdest : dest ≠ 0) (hen : 2 ≤ e.phase) (src : Nat) :
     (processCell A n src ⟨cid, false, re, A.enc e.hop.key .fwd (A.plain (.data dest org tag))⟩ ch).2 =
       [Out.exitOut cid dest tag] := by
+  have h0 : ¬ e.phase = 0 := by omega
+  have h1 : ¬ e.phase = 1 := by omega
   simp [processCell, hr, inCrypto, he, L.dec_enc, L.parse_plain, Msg.isExtend, Msg.noCrypto, handle, onData, hc,
-    hdest, exitData, hen]
+    hdest, exitData, h0, h1]
 
 /-- layers: what the originator puts on (first hop outermost) is exactly what the hops take off in order -/
 theorem decryptAll_encryptAll (L : AeadLaws A) (d : Dir) (ks : List Nat) (b : B) :
@@ -430,7 +435,7 @@ theorem forward_path (L : AeadLaws A) (rs : List (Node × Relay)) (ex : Node) (e
     (cid last : Nat) (re : Bool) (src dest org tag : Nat)
     (hchain : FwdChain rs cid last)
     (hr : get ex.relays last = none) (he : get ex.exits last = some e) (hc : get ex.circuits last = none)
-    (hdest : dest ≠ 0) (hen : e.enabled = true) :
+    (hdest : dest ≠ 0) (hen : 2 ≤ e.phase) :
     through A (rs.map Prod.fst) ex src
       ⟨cid, false, re, encryptAll A .fwd (rs.map (fun p => p.2.hop.key) ++ [e.hop.key]) (A.plain (.data dest org tag))⟩
       = some [Out.exitOut last dest tag] := by
@@ -497,6 +502,120 @@ example : (onDestroy (B := SymBody) exX 2 700 true).1.exits = [] := by decide
     tells the originator which hop produced the plaintext). -/
 theorem injected_cleartext_accepted_while_extending :
     through sym [exR1] exO1 7 ⟨600, false, false, sym.plain (.data 0 44 8)⟩ = some [Out.rawIn 500 44 8] := by decide
+
+
+/-! ## the exit sockets' queues (packets parked while a socket's transports are being opened) -/
+
+/-- a DATA cell that has to wait is parked in the queue of the socket its id names, tagged with that id, and no
+    other exit entry (queue, phase or hop) changes -/
+theorem park_only_in_own_queue (n : Node) (src cid dest tag : Nat) :
+    let r := exitData (B := B) n src cid dest tag
+    (∀ k, k ≠ cid → get r.1.exits k = get n.exits k) ∧
+    (∀ e e', get n.exits cid = some e → get r.1.exits cid = some e' →
+        e'.hop = e.hop ∧ (e'.queue = e.queue ∨ e'.queue = pushQ e.queue (cid, dest, tag))) := by
+  unfold exitData
+  cases he : get n.exits cid with
+  | none => exact ⟨fun _ _ => rfl, fun e _ h => by cases h⟩
+  | some e =>
+    dsimp only
+    split
+    · split
+      · refine ⟨fun k hk => get_set_other _ _ _ _ hk, ?_⟩
+        intro e0 e' h0 h'
+        cases h0
+        rw [get_set_self] at h'
+        cases h'
+        exact ⟨rfl, Or.inr rfl⟩
+      · refine ⟨fun _ _ => rfl, ?_⟩
+        intro e0 e' h0 h'
+        rw [he] at h'
+        cases h0; cases h'
+        exact ⟨rfl, Or.inl rfl⟩
+    · split
+      · refine ⟨fun k hk => get_set_other _ _ _ _ hk, ?_⟩
+        intro e0 e' h0 h'
+        cases h0
+        rw [get_set_self] at h'
+        cases h'
+        exact ⟨rfl, Or.inr rfl⟩
+      · refine ⟨fun _ _ => rfl, ?_⟩
+        intro e0 e' h0 h'
+        rw [he] at h'
+        cases h0; cases h'
+        exact ⟨rfl, Or.inl rfl⟩
+
+/-- the invariant "every parked packet sits in the queue of the socket whose id its cell carried" is preserved by
+    EVERY step of a node: any cell from anybody, any destroy, every API call, every completion of a transport -/
+theorem queue_own_step (n : Node) (e : Ev B) (hq : QueueOwn n) : QueueOwn (step A n e).1 := by
+  cases e with
+  | cell src c ch => exact processCell_qo A n src c ch hq
+  | destroy signer cid ok => exact onDestroy_qo n signer cid ok hq
+  | create cid goal hp ha ident =>
+    exact qo_same (by simp only [step, apiCreate]; rw [sendMsg_exits]) hq
+  | sendData cid dest tag =>
+    refine qo_same ?_ hq
+    simp only [step, apiSendData]
+    repeat' (first | rfl | (rw [sendMsg_exits]) | split)
+  | tunnelData cid org tag =>
+    refine qo_same ?_ hq
+    simp only [step, apiTunnelData]
+    repeat' (first | rfl | (rw [sendMsg_exits]) | split)
+  | ping => exact qo_same (pingAll_exits A n n.circuits) hq
+  | rmCircuit cid =>
+    refine qo_same ?_ hq
+    simp only [step, apiRemoveCircuit]
+    repeat' (first | rfl | split)
+  | rmExit cid =>
+    simp only [step, apiRemoveExit]
+    split
+    · exact qo_del _ rfl hq
+    · exact hq
+  | rmRelay cid =>
+    refine qo_same ?_ hq
+    simp only [step, apiRemoveRelay]
+    repeat' (first | rfl | split | dsimp only)
+  | openStep cid => exact openStep_qo n cid hq
+  | tick => exact qo_same rfl hq
+
+/-- … hence it holds after every history (unbounded, any interleaving of any number of circuits) from a node
+    whose queues are empty, in particular from the initial node -/
+theorem queue_own_history (n : Node) (es : List (Ev B)) (hq : QueueOwn n) : QueueOwn (run A n es) := by
+  induction es generalizing n with
+  | nil => exact hq
+  | cons e t ih => exact ih _ (queue_own_step A n e hq)
+
+/-- flushing socket X emits only what arrived on X: when `create_transports` of exit socket `cid` completes, every
+    datagram that leaves does so through socket `cid` and was parked by a cell labelled `cid`; no other exit entry
+    (in particular no other socket's queue) is touched -/
+theorem flush_emits_only_own (n : Node) (cid : Nat) (hq : QueueOwn n) :
+    let r := openStep (B := B) n cid
+    (∀ o ∈ r.2, ∃ e dest tag, get n.exits cid = some e ∧ (cid, dest, tag) ∈ e.queue ∧ o = Out.exitOut cid dest tag) ∧
+    (∀ k, k ≠ cid → get r.1.exits k = get n.exits k) ∧
+    r.1.circuits = n.circuits ∧ r.1.relays = n.relays := by
+  unfold openStep
+  cases he : get n.exits cid with
+  | none => exact ⟨(fun o ho => absurd ho List.not_mem_nil), fun _ _ => rfl, rfl, rfl⟩
+  | some e =>
+    dsimp only
+    split
+    · exact ⟨(fun o ho => absurd ho List.not_mem_nil), fun k hk => get_set_other _ _ _ _ hk, rfl, rfl⟩
+    · split
+      · refine ⟨?_, fun k hk => get_set_other _ _ _ _ hk, rfl, rfl⟩
+        intro o ho
+        simp only [List.mem_map] at ho
+        obtain ⟨q, hqm, rfl⟩ := ho
+        have h1 : q.1 = cid := hq (cid, e) (mem_of_get _ _ _ he) q hqm
+        refine ⟨e, q.2.1, q.2.2, rfl, ?_, rfl⟩
+        rw [← h1]
+        exact hqm
+      · exact ⟨(fun o ho => absurd ho List.not_mem_nil), fun _ _ => rfl, rfl, rfl⟩
+
+/-- non-vacuity: two exit sockets of one node are opening at the same time, each with parked packets; completing
+    socket 700 emits its own two packets and leaves socket 701's queue alone -/
+example : QueueOwn exQ := by decide
+example : (openStep (B := SymBody) exQ 700).2 = [Out.exitOut 700 55 1, Out.exitOut 700 56 2] := by decide
+example : get (openStep (B := SymBody) exQ 700).1.exits 701 = get exQ.exits 701 := by decide
+example : QueueOwn (Node.init 1) := by decide
 
 /-! ## any number of third-party events, in any order -/
 
